@@ -691,6 +691,29 @@ func c02Witnesses() []c02Input {
 		out = append(out, c02Input{Text: text, Runs: []c02Run{run}, Truncator: c02Truncator(nil, 0, 0), Tag: "F6",
 			Calls: []c02Call{{Widths: []int{35}}, {Widths: []int{1000}}, {Widths: []int{65}}}})
 	}
+	// F6 (repaired), single-run fast path: one run "aa bb " with 4 px letter spacing applied by the library; the first call
+	// (no whitespace trim, narrow) trims the start letter spacing of the first glyph of each line through the aliasing slices,
+	// so the caller's Advance is stale; then WrapParagraph at every width around the real and the stale advance with the
+	// same []Output: the fast path must decide on the advance recomputed from the glyphs (when it is taken the trailing
+	// space keeps its advance, when the wrapper runs it is zeroed: the store shows which path was taken)
+	{
+		text := []rune("aa bb ")
+		run := c02Run{Dir: 0, Off: 0, Cnt: 6}
+		for i, c := range text {
+			e := int32(512)
+			if c == ' ' {
+				e = 0
+			}
+			run.Glyphs = append(run.Glyphs, one(i, 640, e))
+			run.Adv += 640
+		}
+		runs := c02Spacing([]c02Run{run}, text, 0, 256)
+		total := c02TotalPx(runs)
+		for w := total - 12; w <= total+1; w++ {
+			out = append(out, c02Input{Text: text, Runs: runs, Truncator: c02Truncator(nil, 0, 0), Tag: "F6",
+				Calls: []c02Call{{Widths: []int{30}, NoTrim: true, Reset: true}, {Widths: []int{w}}, {Widths: []int{w}, Policy: 1}}})
+		}
+	}
 	// F7: runes a b c d SP e f, clusters a, b, c, "d e", f; width for two glyphs; WhenNecessary
 	{
 		text := []rune("abcd ef")
@@ -702,6 +725,23 @@ func c02Witnesses() []c02Input {
 			calls = append(calls, c02Call{Policy: pol, Widths: []int{2}, Reset: true})
 		}
 		out = append(out, c02Input{Text: text, Runs: []c02Run{run}, Truncator: c02Truncator(nil, 0, 0), Tag: "F7", Calls: calls})
+	}
+	// F37 (repaired): runes a SP U+0301 b b, clusters "a SP" (one glyph, 3 px), U+0301, b, b; width 2: the UAX #14 option after
+	// the space is not a grapheme boundary and does not fit, no grapheme boundary before it is usable (inside the cluster):
+	// the option is used anyway (before the repair: nil line, option dropped, "U+0301 b b" split although it fits)
+	{
+		text := []rune("a \u0301bb")
+		run := c02Run{Dir: 0, Off: 0, Cnt: 5}
+		run.Glyphs = []c02Glyph{{C: 0, RC: 2, GC: 1, Adv: 192, Ext: 192}, {C: 2, RC: 1, GC: 1, Adv: 0, Ext: 64}, one(3, 64, 64), one(4, 64, 64)}
+		run.Adv = 5 * 64
+		var calls []c02Call
+		for pol := uint8(0); pol < 3; pol++ {
+			calls = append(calls, c02Call{Policy: pol, Widths: []int{2}, Reset: true})
+			calls = append(calls, c02Call{Policy: pol, Widths: []int{2}, Reset: true, Mode: 1})
+			calls = append(calls, c02Call{Policy: pol, Trunc: 2, Widths: []int{2}, Reset: true})
+			calls = append(calls, c02Call{Policy: pol, Trunc: 2, Cont: true, Widths: []int{2}, Reset: true, Mode: 1})
+		}
+		out = append(out, c02Input{Text: text, Runs: []c02Run{run}, Truncator: c02Truncator(nil, 0, 0), Tag: "F37", Calls: calls})
 	}
 	// F8: two runs "aaa" + "bbb ccc", truncation after one line, every width and policy
 	{
@@ -988,6 +1028,10 @@ func c02Gen(r *vh.Rand, tier string, n int, emit func(any)) {
 			text := c02RandomText(r, 6)
 			in := build(text, 1, false, false)
 			in.Tag = "malformed"
+			// no prelude paragraph on malformed runs: the model starts from the zero wrapper, and that this is
+			// indistinguishable from a used one (the stale rune -> glyph mapping buffer) is a theorem for
+			// well-formed runs only (C13 wrap_history_independent)
+			in.Pre = nil
 			switch r.Intn(3) {
 			case 0:
 				in.Runs = in.Runs[:len(in.Runs)-1]
